@@ -5,7 +5,8 @@ import itertools
 
 from xknx import XKNX
 from xknx.dpt import DPTArray, DPTBinary
-from xknx.telegram import IndividualAddress, Telegram, TelegramDirection
+from xknx.telegram import GroupAddress, IndividualAddress, Telegram, TelegramDirection
+from xknx.telegram.address import InternalGroupAddress
 from xknx.telegram.apci import GroupValueRead, GroupValueResponse, GroupValueWrite
 
 from harness import devpool as P
@@ -15,7 +16,9 @@ RULE = ("generated add / remove / re-add / telegram histories (<=200 ops; plus e
         "over a 3-device pool and over a composite pool {ClimateMode, Climate(mode=that ClimateMode), Switch}) on a real xknx.devices.Devices holding devices of every device class that share up to 8 group/"
         "internal addresses (same address in several remote values of one device, passive addresses, all address notations; composite "
         "devices - every class with a sub-device parameter, found by introspection - get a sub-device that is itself a pool member, "
-        "added/removed independently); after every op devices_by_group_address must equal the naive has_group_address / "
+        "added/removed independently); telegram destinations / looked-up addresses = configured addresses + addresses nobody can use "
+        "{GroupAddress(0) broadcast, 65534, an unused group address, an unused internal address} + an individual address; "
+        "after every op devices_by_group_address must equal the naive has_group_address / "
         "group_addresses scan over the LIVE registered devices in registration order; after "
         "every op the registered devices and devices_by_group_address of EVERY pool address are compared by identity and order with "
         "the Lean model, and the Device.process calls made per telegram are recorded; non-trivial = distinct (pool, history) with at "
@@ -34,7 +37,14 @@ FIXED3 = [
     {"cls": "Light", "extra": 0, "ga": {"group_address_switch": [[1], 1], "group_address_brightness": [[1], 2]}},
     {"cls": "Sensor", "extra": 0, "ga": {"group_address_state": [[None, 1, 2], 6]}},
 ]
-ALPHA3 = ["a0", "a1", "a2", "r0", "r1", "r2", "t1", "tx"]
+ALPHA3 = ["a0", "a1", "a2", "r0", "r1", "r2", "t1", "tx", "t100"]
+# destinations / looked-up addresses that NO device can be configured with (ids >= 100 in the op line; the model's lookup is
+# total over all address ids): the broadcast address 0/0/0 (rejected by parse_device_group_address), never-used addresses
+PROBES = {100: GroupAddress(0), 101: GroupAddress("5/5/5"), 102: InternalGroupAddress("i-nobody"), 103: GroupAddress(65534)}
+
+
+def _addr(g):
+    return PROBES[g] if g >= 100 else P.addr_obj(g)
 # composite device: a Climate whose ClimateMode (pool member 0, the SAME object) is registered on its own as well
 FIXEDC = [
     {"cls": "ClimateMode", "extra": 0, "ga": {"group_address_operation_mode": [[1], 0], "group_address_controller_status": [[2], 1]}},
@@ -96,7 +106,8 @@ def generate(rng, tier):
         for _ in range(nops):
             r = rng.random()
             if r < 0.30:        # telegram
-                ops.append("tx" if rng.random() < 0.1 else f"t{rng.randrange(naddr)}")
+                r2 = rng.random()
+                ops.append("tx" if r2 < 0.08 else f"t{rng.choice(sorted(PROBES))}" if r2 < 0.25 else f"t{rng.randrange(naddr)}")
             elif r < 0.62:      # well-formed add (unregistered) — incl. re-add of a removed device
                 cand = [i for i in range(nd) if i not in reg]
                 if cand:
@@ -130,7 +141,7 @@ def _telegram(dst_idx, variant, k):
     if dst_idx is None:
         dst = IndividualAddress("1.2.3")
     else:
-        dst = P.addr_obj(dst_idx)       # a fresh, equal address object
+        dst = _addr(dst_idx)            # a fresh, equal address object
     v = (variant + k) % 6
     payload = [GroupValueWrite(DPTBinary(1)), GroupValueRead(), GroupValueResponse(DPTArray((1,))),
                GroupValueWrite(DPTArray((1, 2))), GroupValueWrite(DPTBinary(0)), GroupValueResponse(DPTBinary(1))][v]
@@ -165,7 +176,7 @@ def run_impl(case):
     scans = []                             # naive scans over the LIVE devices (has_group_address / group_addresses), per op
 
     def scan(g):
-        a = P.addr_obj(g)
+        a = _addr(g)
         return _ids([j for j in naive if devs[j].has_group_address(a)]) + "~" + _ids([j for j in naive if a in devs[j].group_addresses()])
 
     for k, op in enumerate(case["ops"]):
@@ -198,9 +209,18 @@ def run_impl(case):
         except Exception as e:  # noqa: BLE001
             t = f"other:{type(e).__name__}"
         state = _ids([ident.get(id(x), 999) for x in reg])
-        by = ";".join(_ids([ident.get(id(x), 999) for x in reg.devices_by_group_address(P.addr_obj(g))])
-                      for g in range(naddr))
+        def lookup(g):
+            try:
+                return _ids([ident.get(id(x), 999) for x in reg.devices_by_group_address(_addr(g))])
+            except Exception as e:  # noqa: BLE001
+                return f"!raise:{type(e).__name__}"
+
+        by = ";".join(lookup(g) for g in range(naddr))
         extra = ""
+        for g in PROBES:                   # addresses nobody can use: the lookup must be empty and must not raise
+            lg = lookup(g)
+            if lg != "-":
+                extra += f"!lookup({PROBES[g]})={lg}"
         if len(reg) != len(list(reg)):
             extra += "!len"
         if any((devs[j] in reg) != (j in [ident.get(id(x)) for x in reg]) for j in range(len(devs))):
@@ -221,6 +241,8 @@ def run_impl(case):
 
 def oracle(case, out):
     """The property on the implementation's behaviour, against a naive scan — independent of the Lean model."""
+    if not case["ops"]:
+        return None
     specs = case["specs"]
     uses = [P.spec_addresses(s, specs) for s in specs]  # the addresses each device (incl. its sub-devices) was configured with
     naddr = case["naddr"]
@@ -260,7 +282,7 @@ def oracle(case, out):
                 if res != "Eunregistered":
                     return f"{where}: removing an unregistered device gave {res}, expected an error"
         if "!" in by:
-            return f"{where}: len()/in disagree with iteration, or an empty index entry remains ({by})"
+            return f"{where}: lookup raised / found devices for an address nobody uses, len()/in disagree with iteration, or an empty index entry remains ({by})"
         if state != _ids(registered):
             return f"{where}: registered devices are [{state}], expected [{_ids(registered)}] (an error must change nothing)"
         live = sc.split(";")
@@ -315,7 +337,7 @@ def shrink(case, msg):
         changed = False
         for i in reversed(range(len(cur["ops"]))):
             cand = dict(cur, ops=cur["ops"][:i] + cur["ops"][i + 1:])
-            if fails(cand):
+            if cand["ops"] and fails(cand):
                 cur = cand
                 changed = True
     return cur
